@@ -267,7 +267,7 @@ func aliasesInput(ids []string) bool {
 }
 
 func scribbleStrings(ids []string) {
-	if aliasesInput(ids) {
+	if noScribble || aliasesInput(ids) {
 		return
 	}
 	for i := range ids {
@@ -292,7 +292,7 @@ func qvGroups(gs []*object.FromExtendedSpatialIDToQuadkeyAndVerticalID, err erro
 		r.Raw = append(r.Raw, b.String())
 	}
 	for _, g := range gs { // the caller owns the returned objects
-		if g != nil {
+		if g != nil && !noScribble {
 			in := g.InnerIDList()
 			for i := range in {
 				in[i] = [2]int64{-1, -1}
@@ -314,7 +314,7 @@ func qaGroups(gs []*object.FromExtendedSpatialIDToQuadkeyAndAltitudekey, err err
 		r.Raw = append(r.Raw, b.String())
 	}
 	for _, g := range gs {
-		if g != nil {
+		if g != nil && !noScribble {
 			in := g.InnerIDList()
 			for i := range in {
 				in[i] = [2]int64{-1, -1}
@@ -553,8 +553,10 @@ func init() {
 		return &Call{Op: "merge_ext", IDs: ids, Ints: []int64{th, tv}}
 	}
 	reg(&OpSpec{Name: "merge_ext", SetOp: true, Dedup: true, Lists: []string{"ids"}, Weight: 14,
-		Gen:  func(g *Gen) *Call { return genMerge(g, false) },
-		Exec: func(c *Call, a *Args) Result { return strs(integrate.MergeExtendedSpatialIds(a.IDs, i64(c, 0), i64(c, 1))) }})
+		Gen: func(g *Gen) *Call { return genMerge(g, false) },
+		Exec: func(c *Call, a *Args) Result {
+			return strs(integrate.MergeExtendedSpatialIds(a.IDs, i64(c, 0), i64(c, 1)))
+		}})
 	reg(&OpSpec{Name: "merge", SetOp: true, Dedup: true, Lists: []string{"ids"},
 		Gen:  func(g *Gen) *Call { return genMerge(g, true) },
 		Exec: func(c *Call, a *Args) Result { return strs(integrate.MergeSpatialIds(a.IDs, i64(c, 0))) }})
@@ -614,7 +616,9 @@ func init() {
 			}
 			return &Call{Op: "nlayer", IDs: ids, Ints: []int64{h, v}}
 		},
-		Exec: func(c *Call, a *Args) Result { return strs(operated.GetNspatialIdsAroundVoxcels(a.IDs, i64(c, 0), i64(c, 1))) }})
+		Exec: func(c *Call, a *Args) Result {
+			return strs(operated.GetNspatialIdsAroundVoxcels(a.IDs, i64(c, 0), i64(c, 1)))
+		}})
 
 	// ---- overlap ----
 	boolRes := func(b bool, err error) Result { return Result{Aux: strconv.FormatBool(b), Err: errStr(err)} }
@@ -695,7 +699,9 @@ func init() {
 			a, b := genSpLists(g)
 			return &Call{Op: "overlap_sp", IDs: a[:1], IDs2: b[:1]}
 		},
-		Exec: func(c *Call, a *Args) Result { return boolRes(detector.CheckSpatialIdsOverlap(first(a.IDs), first(a.IDs2))) }})
+		Exec: func(c *Call, a *Args) Result {
+			return boolRes(detector.CheckSpatialIdsOverlap(first(a.IDs), first(a.IDs2)))
+		}})
 	reg(&OpSpec{Name: "overlap_sp_arr", SetOp: true, Canon: boolCanon, Lists: []string{"ids", "ids2"},
 		Gen: func(g *Gen) *Call {
 			a, b := genSpLists(g)
